@@ -1,5 +1,6 @@
 import AcraModel.Typed.Describe
 import AcraModel.Typed.Kinds
+import AcraModel.Typed.Row
 /-! Driver ops for C19 (typed columns). -/
 namespace Driver.C19
 open AcraModel AcraModel.Typed
@@ -56,7 +57,89 @@ def showPolicy : Policy → String
 /-- the OID the harness uses for "what the database / the client said" in the description ops -/
 def probeOid : Nat := 17
 
+/-! ### whole rows -/
+
+def parseFmt (s : String) : Option Bool :=
+  if s = "binary" then some true else if s = "text" then some false else none
+
+/-- result format codes of the Bind packet: `simple` = simple query, `_` = no codes, otherwise a comma list -/
+def parseCodes (s : String) : Option (Option (List Nat)) :=
+  if s = "simple" then some none
+  else if s = "_" then some (some [])
+  else ((s.splitOn ",").mapM String.toNat?).map some
+
+/-- stored value of a column: `null` or hex -/
+def parseWire (s : String) : Option (Option Bytes) :=
+  if s = "null" then some none else (ofHex s).map some
+
+/-- one column of `pg.row`: `<type> <onFail> <default> <utf8> <b64> <reveal> <wire>`; `none` = setting rejected -/
+def pgRowColumn (a : List String) : Option (Option (RowColumn × Option Bytes)) :=
+  match a with
+  | [t, onFail, dflt, utf8, b64, reveal, wire] => do
+    let raw ← mkRaw t onFail dflt utf8 b64
+    let reveal ← parseOptBytes reveal
+    let wire ← parseWire wire
+    pure ((initSetting raw).map fun s => (⟨some (s, ⟨raw.defaultB64⟩), fun _ => reveal, 0, 0⟩, wire))
+  | _ => none
+
+/-- one column of `my.row`: `<type> <onFail> <default> <utf8> <b64> <origType> <reveal> <wire>` -/
+def myRowColumn (a : List String) : Option (Option (RowColumn × Option Bytes × Setting × Nat)) :=
+  match a with
+  | [t, onFail, dflt, utf8, b64, origType, reveal, wire] => do
+    let raw ← mkRaw t onFail dflt utf8 b64
+    let origType ← origType.toNat?
+    let reveal ← parseOptBytes reveal
+    let wire ← parseWire wire
+    pure ((initSetting raw).map fun s =>
+      let (colType, originType) := match s.dataType with
+        | some dt => (myTypeCode dt, origType)
+        | none => (origType, 0)
+      (⟨some (s, ⟨raw.defaultB64⟩), fun _ => reveal, colType, originType⟩, wire, s, origType))
+  | _ => none
+
+def chunks (k : Nat) : List String → Nat → List (List String)
+  | _, 0 => []
+  | l, n+1 => l.take k :: chunks k (l.drop k) n
+
+def showRowRes (f : Nat → Bytes → Bool → String) : RowRes → String
+  | .cols l => "cols " ++ (if l.isEmpty then "_" else ",".intercalate (l.mapIdx fun i v => match v with
+      | none => "null"
+      | some (b, rb) => f i b rb))
+  | .encodingError => "encerr"
+  | .otherError => "err"
+
+def handleRow (op : String) (args : List String) : Option String :=
+  match op, args with
+  -- a DataRow through `handleQueryDataPacket`: result format codes of the Bind packet, then the columns
+  | "pg.row", codes :: n :: rest => do
+      let codes ← parseCodes codes
+      let n ← n.toNat?
+      if rest.length ≠ 7 * n then none else
+      let cols ← (chunks 7 rest n).mapM pgRowColumn
+      match cols.mapM id with
+      | none => pure "badsetting"
+      | some cols => pure (showRowRes (fun _ b _ => hexOf b) (pgRow codes Ctx.fresh cols))
+  -- a MySQL result row through `processTextDataRow` / `processBinaryDataRow`
+  | "my.row", fmt :: n :: rest => do
+      let binary ← parseFmt fmt
+      let n ← n.toNat?
+      if rest.length ≠ 8 * n then none else
+      let cols ← (chunks 8 rest n).mapM myRowColumn
+      match cols.mapM id with
+      | none => pure "badsetting"
+      | some cols =>
+        let row := cols.map fun c => (c.1, c.2.1)
+        let res := if binary then myBinaryRow Ctx.fresh row else myTextRow Ctx.fresh row
+        pure (showRowRes (fun i b rb =>
+          match cols[i]? with
+          | some c => s!"{hexOf b}:{rb}:{myDescribe c.2.2.1 c.2.2.2 rb}"
+          | none => "?") res)
+  | _, _ => none
+
 def handle (op : String) (args : List String) : Option String :=
+  match handleRow op args with
+  | some r => some r
+  | none =>
   match op, args with
   -- configuration of a column of any kind: accepted?, policy, type aware?, binary operation?, and the descriptions
   -- (PostgreSQL: RowDescription / ParameterDescription OID for a bytea column, Parse OID for a parameter the client
